@@ -275,7 +275,8 @@ class SetAttr(Contract):
         return outs
 
     def instances(self, tier):
-        return ["DF002", "DF406_07", "_payload", "_immutable", "brand_new", "payload", "identity", "ismsm"]
+        return ["DF002", "DF406_07", "_payload", "_immutable", "brand_new", "payload", "identity", "ismsm",
+                "DF002:any-value", "brand_new:any-value"]  # a finished message, value = an arbitrary caller-supplied object
 
     PROPERTY_NAMES = ("payload", "identity", "ismsm")  # class properties without a setter: object.__setattr__ itself refuses them
 
@@ -286,6 +287,12 @@ class SetAttr(Contract):
         imm = z3.Bool("immutable")
         selfv = new_message(st, SBytes([pv]), immutable=SBool(imm))
         value = SInt(z3.Int("value"))
+        tag = inst
+        if inst.endswith(":any-value"):
+            from pyvc.values import ExternalValue
+            inst = inst.split(":")[0]
+            st.assume(imm)
+            value = ExternalValue("value")
         st.writes = set()
         canary = []
         for s, out in eng.exec_function(fi, st, {"self": selfv, "name": inst, "value": value}, contract=self):
@@ -296,18 +303,18 @@ class SetAttr(Contract):
                     # a finished (immutable) message refuses with the library's error like any other name; only while it is still
                     # being built does the plain store's own AttributeError show
                     ok = z3.Or(ok, z3.And(z3.Not(imm), z3.BoolVal(out.cls is AttributeError)))
-                eng.oblige(f"{self.qualname}.exc.refuses_iff_immutable[{inst}]", s, ok, kind="exc", site=fi.lineno,
+                eng.oblige(f"{self.qualname}.exc.refuses_iff_immutable[{tag}]", s, ok, kind="exc", site=fi.lineno,
                            note=f"raises {out.cls.__name__}")
-                if inst in self.PROPERTY_NAMES:
+                if inst in self.PROPERTY_NAMES or tag.endswith(":any-value"):
                     canary.append(s)  # these names have no normal return at all: reachability is shown on the refusing paths
-                eng.oblige(f"{self.qualname}.exc.nothing_written[{inst}]", s, z3.BoolVal(not wr), kind="frame", site=fi.lineno,
+                eng.oblige(f"{self.qualname}.exc.nothing_written[{tag}]", s, z3.BoolVal(not wr), kind="frame", site=fi.lineno,
                            note=f"writes {sorted(map(str, wr))}")
                 continue
             canary.append(s)
             obj = s.obj(selfv)
             base, idx = eng.parse_attr_name(s, inst) if not inst.startswith("_") else (inst, [])
             key = inst if inst.startswith("_") else (base, len(idx))
-            eng.oblige(f"{self.qualname}.post.stores_when_mutable[{inst}]", s,
+            eng.oblige(f"{self.qualname}.post.stores_when_mutable[{tag}]", s,
                        z3.And(z3.Not(imm), z3.BoolVal(wr == {(selfv.oid, key)})), site=fi.lineno, note=f"writes {sorted(map(str, wr))}")
         return canary
 
